@@ -268,6 +268,9 @@ func enumCorpus(yield func(CorpusCase) bool) {
 
 func judgePlan(p docgen.Plan, o *vh.Obs) {
 	out := billrun.Run(p)
+	if p.CustomerRates != "" {
+		o.Class("customer-rates")
+	}
 	if out.Err != nil {
 		o.Class("calc-error")
 		o.Discard()
@@ -894,9 +897,105 @@ func judgeMatrix(c MatrixCase, o *vh.Obs) {
 	readOnly(b1, o)
 }
 
+// ---------------------------------------------------------------------------
+// (ix) generated documents decorated with addons, tags and tax identities
+
+type DecoratedCase struct {
+	Plan     docgen.Plan `json:"plan"`
+	Addons   []string    `json:"addons,omitempty"`
+	Tags     []string    `json:"tags,omitempty"`
+	Supplier string      `json:"supplier,omitempty"` // country of the supplier's tax identity
+	Customer string      `json:"customer,omitempty"`
+}
+
+func (c DecoratedCase) doc() []byte {
+	var m map[string]any
+	if json.Unmarshal(c.Plan.JSON(), &m) != nil {
+		return nil
+	}
+	if len(c.Addons) > 0 {
+		m["$addons"] = c.Addons
+	}
+	if len(c.Tags) > 0 {
+		m["$tags"] = c.Tags
+	}
+	if sup, ok := m["supplier"].(map[string]any); ok && c.Supplier != "" {
+		sup["tax_id"] = map[string]any{"country": c.Supplier}
+	}
+	if c.Customer != "" {
+		cust, _ := m["customer"].(map[string]any)
+		if cust == nil {
+			cust = map[string]any{"name": "Customer Ltd."}
+			m["customer"] = cust
+		}
+		cust["tax_id"] = map[string]any{"country": c.Customer}
+	}
+	data, _ := json.Marshal(m)
+	return data
+}
+
+func genDecorated(t *rapid.T) DecoratedCase {
+	defs := pubdata.MustPublished()
+	c := DecoratedCase{Plan: docgen.GenPlan(t, docgen.Opts{MaxLines: 3, TaxHeavy: true, FixedAtCur: true})}
+	kind := "bill/" + c.Plan.Kind
+	c.Supplier = c.Plan.Regime
+	na := rapid.SampledFrom([]int{0, 1, 1, 1, 2, 2, 3}).Draw(t, "naddons")
+	tags := append([]string{}, generalTags...)
+	if pr := defs.Regimes[c.Plan.Regime]; pr != nil {
+		tags = append(tags, pr.Tags[kind]...)
+	}
+	for i := 0; i < na; i++ {
+		a := rapid.SampledFrom(defs.AddonKeys).Draw(t, "addon")
+		c.Addons = append(c.Addons, a)
+		tags = append(tags, defs.Addons[a].Tags[kind]...)
+	}
+	for i, n := 0, rapid.SampledFrom([]int{0, 0, 1, 1, 2, 3}).Draw(t, "ntags"); i < n; i++ {
+		c.Tags = append(c.Tags, rapid.SampledFrom(tags).Draw(t, "tag"))
+	}
+	switch rapid.IntRange(0, 3).Draw(t, "customer") {
+	case 0:
+	case 1:
+		c.Customer = c.Plan.Regime
+	default:
+		c.Customer = rapid.SampledFrom(defs.TaxList).Draw(t, "customercountry")
+	}
+	return c
+}
+
+func judgeDecorated(c DecoratedCase, o *vh.Obs) {
+	known := ""
+	// fixed amounts are drawn at the currency's precision, so the recorded
+	// finding cannot occur unless the plain plan says so
+	if out := billrun.Run(c.Plan); out.Err == nil {
+		if ref, err := refcalc.Calculate(c.Plan, out.Env, out.Rows); err == nil {
+			if ref.Stats.OutOfDomain {
+				o.Class("outside-2^52-domain")
+				o.Discard()
+				return
+			}
+			if refcalc.OverPreciseFixed(c.Plan, out.Env.C, ref.Prices) {
+				o.Class("over-precise-fixed-amount")
+				known = "fixpoint:over-precise-fixed-amount"
+			}
+		}
+	}
+	o.Class(fmt.Sprintf("addons-%d", len(c.Addons)))
+	o.Class(fmt.Sprintf("tags-%d", len(c.Tags)))
+	if c.Customer != "" && c.Customer != c.Plan.Regime {
+		o.Class("foreign-customer")
+	}
+	o.Class("kind-" + c.Plan.Kind)
+	if b1, ok := fixpoint(c.doc(), false, known, o); ok {
+		if len(c.Addons) > 0 || len(c.Tags) > 0 {
+			o.NonTrivial()
+		}
+		readOnly(b1, o)
+	}
+}
+
 func init() {
 	vh.Describe(
-		"(i) every example document of every schema; (ii) generated invoices / orders / deliveries (C01 variety); (iii) example documents with 1-3 string fields (codes, series, identities, addresses, notes, names) replaced by hostile strings (spaces, doubled separators, non-ASCII, leading invalid characters, country prefixes); (iv) random histories of up to 12 steps of calculate / serialise+parse / validate / digest / verify / extract / sign / re-sign / clone over examples; (v) every published regime / addon / catalogue file parsed by its $schema and serialised again; (vi) normaliser laws on hostile strings; (viii) a minimal invoice for every registered regime x every published addon (and none) x every rate key of every category (plus explicit 0% / 10% / no percentage) and x every general, regime and addon invoice tag with a customer of the same and of five other countries; (vii) the calculated bytes of every example and of 40 generated documents recomputed in fresh processes with other GOMAXPROCS. Oracle: B1 = marshal(calc(parse(src))), marshal(parse(B1)) == B1, marshal(calc(parse(B1))) == B1 byte for byte with the same digest (also a third time), read-only operations leave marshal(env) unchanged, identical bytes across processes. Non-trivial: the case had something to normalise, round or reorder (hostile strings, rounding remainders, >= 2 history steps).",
+		"(i) every example document of every schema; (ii) generated invoices / orders / deliveries (C01 variety); (iii) example documents with 1-3 string fields (codes, series, identities, addresses, notes, names) replaced by hostile strings (spaces, doubled separators, non-ASCII, leading invalid characters, country prefixes); (iv) random histories of up to 12 steps of calculate / serialise+parse / validate / digest / verify / extract / sign / re-sign / clone over examples; (v) every published regime / addon / catalogue file parsed by its $schema and serialised again; (vi) normaliser laws on hostile strings; (viii) a minimal invoice for every registered regime x every published addon (and none) x every rate key of every category (plus explicit 0% / 10% / no percentage) and x every general, regime and addon invoice tag with a customer of the same and of five other countries; (ix) generated documents (tax-heavy, fixed amounts at the currency's precision) with 0-3 published addons, 0-3 general / regime / addon tags, a supplier tax identity and a customer of no, the same or any other tax country; (vii) the calculated bytes of every example and of 40 generated documents recomputed in fresh processes with other GOMAXPROCS. Oracle: B1 = marshal(calc(parse(src))), marshal(parse(B1)) == B1, marshal(calc(parse(B1))) == B1 byte for byte with the same digest (also a third time), read-only operations leave marshal(env) unchanged, identical bytes across processes. Non-trivial: the case had something to normalise, round or reorder (hostile strings, rounding remainders, >= 2 history steps).",
 		"identifiers and dates are pinned (explicit uuid / issue_date, fixed header uuid); signatures are random and excluded from byte comparisons",
 		"documents with a fixed amount finer than its presented precision are a recorded finding (excluded by signature, counted)",
 		"a panic on a hostile string is reported by C14, not here",
@@ -904,6 +1003,7 @@ func init() {
 	vh.Enum("corpus", enumCorpus, judgeCorpus)
 	vh.Enum("definitions", enumDefinitions, judgeDefinition)
 	vh.Enum("regime_addon_matrix", enumMatrix, judgeMatrix)
+	vh.Rapid("decorated", 10_000, 600_000, genDecorated, judgeDecorated)
 	vh.Rapid("generated", 12_000, 800_000, func(t *rapid.T) docgen.Plan { return docgen.GenPlan(t, docgen.Opts{MaxLines: 5}) }, judgePlan)
 	vh.Rapid("stress", 6_000, 400_000, genStress, judgeStress)
 	vh.Rapid("histories", 1_500, 100_000, genHistory, judgeHistory)
